@@ -112,7 +112,9 @@ class Schema:
 
 def _node_fields():
     return dict(props={"id": "Int!", "val": "Int", "name": "String", "tags": "[Int!]"},
-                edges={"next": {"to": "Node", "params": {"min": {"type": "Int"}}}, "peer": {"to": "Node", "many": False}})
+                edges={"next": {"to": "Node", "params": {"min": {"type": "Int"}}}, "peer": {"to": "Node", "many": False},
+                       # a NULLABLE parameter with an explicit non-null default: omitted, it must arrive as 1 (neighbours with val >= 1), not as null
+                       "near": {"to": "Node", "params": {"min": {"type": "Int", "default": I(1)}}}})
 def _merge(a, **kw):
     out = {"props": dict(a["props"]), "edges": {k: dict(v) for k, v in a["edges"].items()}}
     out["props"].update(kw.get("props", {})); out["edges"].update(kw.get("edges", {}))
